@@ -138,11 +138,11 @@ Proof. intros H. unfold with_lock_deferred. np. Qed.
 #[export] Hint Resolve np_with_lock : np.
 
 Lemma np_fetch box i : NP (fetch box i).
-Proof. unfold fetch. np. unfold to_type. destruct j; try exact I. destruct (jget "type" _) as [[]|]; try exact I. destruct (jhas _ _); [destruct (known_type _)|]; exact I. Qed.
+Proof. unfold fetch. np. unfold to_type. destruct j; try exact I. destruct (jget "type" _) as [[]|]; try exact I; (destruct (jhas _ _); [first [destruct (known_type _)|destruct (first_known _ _)]|]; exact I). Qed.
 #[export] Hint Resolve np_fetch : np.
 
 Lemma to_type_notpanic j : notpanic (to_type j).
-Proof. unfold to_type. destruct j; try exact I. destruct (jget "type" _) as [[]|]; try exact I. destruct (jhas _ _); [destruct (known_type _)|]; exact I. Qed.
+Proof. unfold to_type. destruct j; try exact I. destruct (jget "type" _) as [[]|]; try exact I; (destruct (jhas _ _); [first [destruct (known_type _)|destruct (first_known _ _)]|]; exact I). Qed.
 Lemma collection_prop_notpanic tp : notpanic (collection_prop tp).
 Proof. unfold collection_prop. repeat (match goal with |- context [if ?b then _ else _] => destruct b end); exact I. Qed.
 #[export] Hint Resolve to_type_notpanic collection_prop_notpanic : np.
